@@ -334,6 +334,18 @@ def _follow_single(B, o, through=("use", "ref", "cast")):
                 m = moves[0]
                 o = {"k": m["k"], "p": {"l": m["p"]["l"], "p": m["p"]["p"] + pr}}
                 continue
+        # a field of a tuple / struct built in this body: `t.1` after `t = (a, b)` is b
+        if pr and isinstance(pr[0], dict) and "f" in pr[0] and "d" not in pr[0]:
+            d_ = B.single_def(l)
+            if d_ and d_[2] == "assign" and not d_[3]["lhs"]["p"] and d_[3]["rv"]["k"] == "agg" and d_[3]["rv"]["ak"] in ("tuple", "adt") \
+                    and not d_[3]["rv"].get("variant_idx") and pr[0]["f"] < len(d_[3]["rv"]["ops"]):
+                nxt = d_[3]["rv"]["ops"][pr[0]["f"]]
+                if nxt["k"] in ("copy", "move"):
+                    o = {"k": nxt["k"], "p": {"l": nxt["p"]["l"], "p": nxt["p"]["p"] + pr[1:]}}
+                    continue
+                if len(pr) == 1:
+                    o = nxt
+                    continue
         d = B.single_def(l)
         if d is None:
             return None
